@@ -150,6 +150,16 @@ def _child(task, corpus_file, outf):
     out = []
     if os.environ.get("VERIF_STDOUT") == "closed":
         sys.stdout.close()
+    if os.environ.get("VERIF_STDOUT") == "broken":
+        class _Broken:
+            encoding = "utf-8"
+
+            def write(self, s):
+                raise BrokenPipeError(32, "Broken pipe")
+
+            def flush(self):
+                raise BrokenPipeError(32, "Broken pipe")
+        sys.stdout = _Broken()
     if task == "persist":
         # corpus: list of JSON documents; each is written with the library, read back raw and through the loader
         import tempfile
@@ -205,7 +215,7 @@ def _child(task, corpus_file, outf):
         import io
         real_stdout = sys.stdout
         for case in corpus["cases"]:
-            if unit.stdout == "sink" and os.environ.get("VERIF_STDOUT") != "closed":
+            if unit.stdout == "sink" and os.environ.get("VERIF_STDOUT") not in ("closed", "broken"):
                 sys.stdout = io.StringIO()
             try:
                 unit.check(case)
@@ -236,6 +246,8 @@ def _child(task, corpus_file, outf):
                 out.append("unknown-call")
     else:
         raise SystemExit("unknown task")
+    if os.environ.get("VERIF_STDOUT") == "broken":
+        sys.stdout = open(os.devnull, "w")       # (the interpreter flushes sys.stdout at exit)
     if sys.argv[1] == "ambient":
         out = {"verdicts": out, "env_reads": sorted(env_reads), "file_opens": file_opens}
     if sys.argv[1] == "unit":
